@@ -1,5 +1,6 @@
-(* PV.C03.Refuted — counter-models: one per guard conjunct that exists because the CODE fails
-   (= open known findings of C03), with computed witnesses. *)
+(* PV.C03.Refuted — after the four fix: commits in /repo (19afc56 replace_all in place, 62f6c0f update_abbr_record keeps
+   matching REPLACE records, a3ce367 update_sizes finds / places $SIZES before $PROBLEM) no statement of C03 is refuted
+   any more; the former counter-model witnesses are kept as regression examples of the repaired behaviour. *)
 From Coq Require Import String Ascii.
 From Coq Require Import List Bool NArith PArith Arith.
 From PV Require Import Base.PyData C03.Model C03.Check.
@@ -9,31 +10,31 @@ Import ListNotations.
 Definition xrec := (positive * text * text)%type.
 Definition xname (r : xrec) : text := snd (fst r).
 Definition xstr (r : xrec) : text := snd r.
+Definition xid (r : xrec) : positive := fst (fst r).
 Definition xorder := t_order static_tables.
 
-(* C03-REPLACE-ALL-REGROUP: update_source always calls replace_all('OMEGA' / 'SIGMA' / 'THETA', <the existing
-   records>) (and replace_all('ABBREVIATED', kept)); when the records of that kind are not contiguous the call
-   moves them together, so regenerating an unmodified model reorders the control stream.
-   Witness: $THETA / $OMEGA / $THETA. *)
+(* formerly C03-REPLACE-ALL-REGROUP: $THETA / $OMEGA / $THETA was regrouped by replace_all('THETA', <the same records>) *)
 Definition regroup_stream : list xrec :=
   [ (1%positive, T "THETA", T "$THETA (0,1) ; A
 "); (2%positive, T "OMEGA", T "$OMEGA 0.1
 "); (3%positive, T "THETA", T "$THETA (0,2) ; B
 ") ].
 
-Theorem replace_all_self_refuted :
-  exists (l : list xrec) (n : text),
-    contiguous xrec xname n l = false /\
-    exists l', replace_all xrec xname xorder l n (filter (name_is xrec xname n) l) = Some l' /\
-               flat_map xstr l' <> flat_map xstr l.
-Proof.
-  exists regroup_stream, (T "THETA"). split; [vm_compute; reflexivity|].
-  eexists. split; [vm_compute; reflexivity|]. vm_compute. discriminate.
-Qed.
+Example replace_all_self_fixed :
+  contiguous xrec xname (T "THETA") regroup_stream = false /\
+  replace_all xrec xname xorder regroup_stream (T "THETA") (filter (name_is xrec xname (T "THETA")) regroup_stream)
+  = Some regroup_stream.
+Proof. split; vm_compute; reflexivity. Qed.
 
-(* C03-ABBR-REWRITE: update_abbr_record drops every $ABBREVIATED REPLACE record (keep = false) and re-creates the
-   eta ones with the spelling '$ABBR REPLACE name=ETA(n)\n': the raw record name, trailing blank lines and comments
-   of an UNMODIFIED model change.  Witness: the pheno example's '$ABBREV REPLACE ETA_CL=ETA(1)' + blank line. *)
+(* new records of the same number take the places of the old ones *)
+Example replace_all_in_place_fixed :
+  option_map (map xid) (replace_all xrec xname xorder regroup_stream (T "THETA")
+                          [(8%positive, T "THETA", T "$THETA 1
+"); (9%positive, T "THETA", T "$THETA 2
+")]) = Some [8; 2; 9]%positive.
+Proof. vm_compute. reflexivity. Qed.
+
+(* formerly C03-ABBR-REWRITE: '$ABBREV REPLACE ETA_CL=ETA(1)' + blank line was dropped and re-created as '$ABBR ...' *)
 Definition abbr_stream : list xrec :=
   [ (1%positive, T "PROBLEM", T "$PROBLEM x
 "); (2%positive, T "INPUT", T "$INPUT ID DV
@@ -44,22 +45,20 @@ Definition abbr_stream : list xrec :=
     (4%positive, T "PK", T "$PK
 CL = THETA(1)*EXP(ETA_CL)
 ") ].
-Definition abbr_new : list xrec := [ (5%positive, T "ABBREVIATED", T "$ABBR REPLACE ETA_CL=ETA(1)
-") ].
+(* translate_to_pharmpy_names of record 3: {'ETA(1)': 'ETA_CL'} *)
+Definition abbr_rmap (r : xrec) : list (text * text) :=
+  if Pos.eqb (xid r) 3 then [(T "ETA(1)", T "ETA_CL")] else [].
+Definition abbr_mk (kv : text * text) : xrec := (9%positive, T "ABBREVIATED", T "$ABBR REPLACE " ++ fst kv ++ T "=" ++ snd kv ++ [10%N]).
 
-Theorem update_abbr_rewrite_refuted :
-  exists (l new : list xrec) (keep : xrec -> bool),
-    filter keep (get_records xrec xname l s_ABBR 0) <> filter (name_is xrec xname s_ABBR) l /\
-    exists l', update_abbr xrec xname xorder s_ABBR l keep new = Some l' /\
-               flat_map xstr l' <> flat_map xstr l.
-Proof.
-  exists abbr_stream, abbr_new, (fun _ => false). split; [vm_compute; discriminate|].
-  eexists. split; [vm_compute; reflexivity|]. vm_compute. discriminate.
-Qed.
+Example update_abbr_rewrite_fixed :
+  (* unmodified: the model needs ETA_CL = ETA(1), the record says so: kept, nothing created *)
+  update_abbr_record xrec xname xorder s_ABBR abbr_rmap abbr_stream [(T "ETA_CL", T "ETA(1)")] abbr_mk = Some abbr_stream /\
+  (* the eta was renumbered: the record is dropped and a new one created *)
+  option_map (map xid) (update_abbr_record xrec xname xorder s_ABBR abbr_rmap abbr_stream [(T "ETA_CL", T "ETA(2)")] abbr_mk)
+  = Some [1; 2; 9; 4]%positive.
+Proof. split; vm_compute; reflexivity. Qed.
 
-(* C03-ABBR-THETA-DROP: a REPLACE record that does not rename an eta (e.g. THETA(CL)=THETA(1)) is dropped and nothing
-   is re-created for it: the record disappears although $PK still uses the abbreviation.
-   Witness: '$ABBR REPLACE THETA(CL)=THETA(1)' of tests/testdata/nonmem/pheno_abbr.mod. *)
+(* formerly C03-ABBR-THETA-DROP: '$ABBR REPLACE THETA(CL)=THETA(1)' was deleted although $PK uses THETA(CL) *)
 Definition abbr_theta_stream : list xrec :=
   [ (1%positive, T "PROBLEM", T "$PROBLEM x
 "); (2%positive, T "INPUT", T "$INPUT ID DV
@@ -69,22 +68,14 @@ Definition abbr_theta_stream : list xrec :=
     (4%positive, T "PK", T "$PK
 CL = THETA(CL)
 ") ].
+Definition abbr_theta_rmap (r : xrec) : list (text * text) :=
+  if Pos.eqb (xid r) 3 then [(T "THETA(1)", T "THETA_CL")] else [].
 
-Theorem update_abbr_drop_refuted :
-  exists (l : list xrec) (keep : xrec -> bool),
-    filter keep (get_records xrec xname l s_ABBR 0) <> filter (name_is xrec xname s_ABBR) l /\
-    exists l', update_abbr xrec xname xorder s_ABBR l keep [] = Some l' /\
-               length (filter (name_is xrec xname s_ABBR) l') < length (filter (name_is xrec xname s_ABBR) l).
-Proof.
-  exists abbr_theta_stream, (fun _ => false). split; [vm_compute; discriminate|].
-  eexists. split; [vm_compute; reflexivity|]. vm_compute. apply le_n.
-Qed.
+Example update_abbr_drop_fixed :
+  update_abbr_record xrec xname xorder s_ABBR abbr_theta_rmap abbr_theta_stream [] abbr_mk = Some abbr_theta_stream.
+Proof. vm_compute. reflexivity. Qed.
 
-(* C03-SIZES-APPEND: a model that needs a $SIZES record (guard sizes_opts = [] false) has it, correctly, before
-   $PROBLEM; get_records('SIZES') looks only inside problem 0 and finds nothing, a second record is created and
-   insert_record — nothing of the default order precedes SIZES — appends it after the last record: the stream of an
-   UNMODIFIED model changes and is refused by the parser's own SIZES-after-PROBLEM test.
-   Witness: 101 thetas, '$SIZES LTH=101' on top. *)
+(* formerly C03-SIZES-APPEND: 101 thetas with '$SIZES LTH=101' on top got a second $SIZES after the last record *)
 Definition sizes_stream : list xrec :=
   [ (1%positive, T "SIZES", T "$SIZES LTH=101
 "); (2%positive, T "PROBLEM", T "$PROBLEM x
@@ -92,16 +83,14 @@ Definition sizes_stream : list xrec :=
 Y = THETA(101)
 "); (4%positive, T "THETA", T "$THETA 0.1
 ") ].
-Definition sizes_new : xrec := (5%positive, T "SIZES", T "$SIZES LTH=101 
+Definition sizes_new : xrec := (5%positive, T "SIZES", T "$SIZES LTH=101
 ").
 
-Theorem sizes_append_refuted :
-  exists (nth ncomp : nat) (cs : bool) (l : list xrec) (new : xrec),
-    sizes_opts static_sizes nth ncomp cs <> Some [] /\
-    let l' := update_sizes_records xrec xname (fun r => fst (fst r)) xorder l true new in
-    flat_map xstr l' <> flat_map xstr l /\
-    sizes_ok_names false (map xname l) = true /\ sizes_ok_names false (map xname l') = false.
-Proof.
-  exists 101, 0, false, sizes_stream, sizes_new. split; [vm_compute; discriminate|].
-  split; [vm_compute; discriminate|]. split; vm_compute; reflexivity.
-Qed.
+Example sizes_append_fixed :
+  sizes_opts static_sizes 101 0 false = Some [OptLTH 101] /\
+  (* the existing record is found and replaced by the (textually identical) updated one *)
+  option_map (flat_map xstr) (update_sizes_records xrec xname xid xorder sizes_stream true sizes_new) = Some (flat_map xstr sizes_stream) /\
+  (* without a $SIZES record a new one is put before $PROBLEM, not after the last record *)
+  option_map (map xid) (update_sizes_records xrec xname xid xorder (tl sizes_stream) true sizes_new) = Some [5; 2; 3; 4]%positive /\
+  option_map (fun l => sizes_ok_names false (map xname l)) (update_sizes_records xrec xname xid xorder (tl sizes_stream) true sizes_new) = Some true.
+Proof. repeat split; vm_compute; reflexivity. Qed.
